@@ -138,12 +138,11 @@ def run(ctx):
     if len(sites) < 2:
         raise AnalysisError("expected two service_register call sites (legacy and new subsystem)")
     for u, n in sites:
-        owner = norm(n.args[0]) if n.args else "?"
+        from ..repo import expand_locals
+        # (a local the name was bound to first is put back: `trig_ctx_name = trig_ctx.get_name()`)
+        owner = norm(expand_locals(u.node, n.args[0])) if n.args else "?"
         # the owner expression must denote a global-context name
-        ok = "global_ctx" in owner and "name" in owner.lower() or owner in ("trig_ctx_name",)
-        if owner == "trig_ctx_name":
-            # legacy: trig_ctx_name = trig_ctx.get_name() where trig_ctx is the global context
-            ok = any(isinstance(m, ast.Assign) and norm(m.targets[0]) == "trig_ctx_name" and "get_name()" in norm(m.value) for m in body_walk(u.node))
+        ok = ("global_ctx" in owner and "name" in owner.lower()) or ("ctx" in owner and "get_name()" in owner)
         ctx.check(ok, "R12.2", u.uid, "owner key is the global context name",
                   msg=f"{u.uid}: service_register is given `{owner}` as owner; the ownership check compares global context names, so a function defined "
                   f"by another evaluator of the same file (e.g. inside a trigger run) cannot re-declare its own file's service", key="owner key at service_register",
